@@ -172,6 +172,13 @@ func init() {
 		}
 		emitBool("smtp_auth_deactivation_deferred", deferred, "Client.Auth: a deferred function sets c.authIsActive = false")
 
+		// loginAuth.Start resets the step counter (C14: a reused Auth value behaves like a fresh one)
+		loginResets := false
+		if fn, ok := sp.funcs["loginAuth.Start"]; ok && fn.Body != nil {
+			loginResets = hasAssign(sp, fn.Body, "a.respStep", "0")
+		}
+		emitBool("login_start_resets_step", loginResets, "loginAuth.Start assigns a.respStep = 0")
+
 		// 4. scramAuth: the three facts the C15 theorems need
 		startResets := false
 		if fn, ok := sp.funcs["scramAuth.Start"]; ok && fn.Body != nil {
@@ -197,6 +204,46 @@ func init() {
 			}
 		}
 		emitBool("scram_restart_resets", restartResets, "scramAuth.Next: if len(fromServer) == 0 { a.reset(); return a.initialClientMessage() }")
+
+		// handleServerFirstResponse: the nonce test. Required shape: combinedNonce := parts[0][2:]; if <cond over
+		// len(a.nonce) == 0 and bytes.HasPrefix(combinedNonce, a.nonce)> { return error }; a.nonce = combinedNonce
+		{
+			okShape := false
+			var cond ast.Expr
+			var at ast.Node
+			if fn, ok := sp.funcs["scramAuth.handleServerFirstResponse"]; ok && fn.Body != nil {
+				def, asg := false, false
+				for _, st := range fn.Body.List {
+					switch t := st.(type) {
+					case *ast.AssignStmt:
+						if len(t.Lhs) == 1 && len(t.Rhs) == 1 {
+							if sp.src(t.Lhs[0]) == "combinedNonce" && sp.src(t.Rhs[0]) == "parts[0][2:]" {
+								def = true
+							}
+							if sp.src(t.Lhs[0]) == "a.nonce" && sp.src(t.Rhs[0]) == "combinedNonce" {
+								asg = true
+							}
+						}
+					case *ast.IfStmt:
+						if strings.Contains(sp.src(t.Cond), "a.nonce") && returnsError(sp, t.Body) && cond == nil {
+							cond, at = t.Cond, t
+						}
+					}
+				}
+				okShape = def && asg && cond != nil
+			}
+			done := false
+			if okShape {
+				if e, ok := sp.expr(cond, map[string]string{"len(a.nonce) == 0": "nonce_nil", "bytes.HasPrefix(combinedNonce, a.nonce)": "has_prefix"}); ok {
+					emit("(* %s: in scramAuth.handleServerFirstResponse: if %s { return error } *)\nDefinition scram_nonce_check (nonce_nil has_prefix : bool) : bool := %s.\n", sp.pos(at), sp.src(cond), e)
+					done = true
+				}
+			}
+			if !done {
+				untranslatable = append(untranslatable, "scram_nonce_check")
+				emit("(* UNTRANSLATABLE scram_nonce_check: the nonce test of handleServerFirstResponse is not a condition over len(a.nonce) == 0 and bytes.HasPrefix(combinedNonce, a.nonce) *)\nDefinition scram_nonce_check (nonce_nil has_prefix : bool) : bool := false.\n")
+			}
+		}
 
 		finalReq := false
 		if fn, ok := sp.funcs["scramAuth.handleServerValidationMessage"]; ok && fn.Body != nil && len(fn.Body.List) > 0 {
